@@ -66,7 +66,7 @@ def shrink(case, still):
 
 def single_node_part(prop, oprop, tier, rng, out, known, cov):
     n_per_kind = {"quick": 120, "thorough": 1500}[tier]
-    g = asyncrun.AGen(rng, max_actions=16 if tier == "quick" else 40, mix=True)
+    g = asyncrun.AGen(rng, max_actions=16 if tier == "quick" else 40, mix=True, block=oprop in ("C13", "C02"))
     co = []
     kinds_hist = {}
     nontriv = set()
